@@ -405,15 +405,31 @@ def gen_dict_case(rng):
                        ["bpf_touch", rng.randrange(nkeys),
                         sx(rng.getrandbits(64), "q")])
     return dict(kf=kf, vf=vf, keys=keys, ops=ops, lru=rng.random() < 0.3,
-                extra=extra)
+                extra=extra,
+                # key / value structures that derive from a base structure
+                # holding their first members; the base may have been used
+                # (instantiated) before
+                derived=rng.choice([None, None, "plain", "base-used"]))
 
 
 def build_dict(case):
     kf, vf = case["kf"], case["vf"]
-    Key = type("Key", (Structure,),
-               {f"k{i}": Member(f) for i, f in enumerate(kf)})
-    Value = type("Value", (Structure,),
-                 {f"v{i}": Member(f) for i, f in enumerate(vf)})
+    def struct_(name, letter, fmts):
+        if not case.get("derived") or len(fmts) < 2:
+            return type(name, (Structure,),
+                        {f"{letter}{i}": Member(f)
+                         for i, f in enumerate(fmts)})
+        h = (len(fmts) + 1) // 2
+        Base = type(name + "Base", (Structure,),
+                    {f"{letter}{i}": Member(f)
+                     for i, f in enumerate(fmts[:h])})
+        if case["derived"] == "base-used":
+            Base()
+        return type(name, (Base,),
+                    {f"{letter}{i}": Member(f)
+                     for i, f in enumerate(fmts) if i >= h})
+    Key = struct_("Key", "k", kf)
+    Value = struct_("Value", "v", vf)
     m = ArrayMap()
     ns = {"license": "GPL", "m": m, "op": m.globalVar("I"),
           "flags": m.globalVar("I"), "midx": m.globalVar("I"),
@@ -533,6 +549,9 @@ def check_dict(case, res, monitor=False):
     desc = dict(kind="dict", kf=kf, vf=vf, lru=case["lru"])
     with kern.session() as sess:
         res.count("dict_configurations")
+        if case.get("derived"):
+            res.count("dict_configurations_with_derived_structures["
+                      + case["derived"] + "]")
         try:
             e, Key, Value = build_dict(case)
             ld = prog.Loaded(e, sess)
@@ -844,6 +863,12 @@ def run_shard(params):
         case = gen_dict_case(rng)
         try:
             check_dict(case, res)
+        except struct.error as ex:
+            res.violation("unexplained:dict-structure-access-raised",
+                          f"assigning in-range values to the members of a "
+                          f"key / value structure raised {ex!r}",
+                          case=dict(kf=case["kf"], vf=case["vf"],
+                                    derived=case.get("derived")))
         except OSError as ex:
             res.violation("unexplained:dict-workload-raised",
                           f"a map operation of the workload failed with "
